@@ -566,6 +566,13 @@ def c04_families(tier, seed, ids=None):
                          assign("col", lst([])), fr(["v"], [call("outer", I(4))], assign("col", bin_("+", N("col"), lst([N("v")])))), N("col")]
             sw.append(mk(ids, items, {"switch": bname, "where": where}))
     out.append(("function literals evaluated right after a switch between loop body and generator", sw, ("value",)))
+    # closures that leave a generator by yield and are called after the loop over it has run to its end (known finding D26)
+    ye = []
+    ygen = assign("ygen", fn(["a"], block([y(fn([], N("a"))), y(fn(["x"], bin_("+", N("x"), un("#", N("a")))))])))
+    ye.append(mk(ids, [ygen, assign("k", I(0)), fr(["g"], [call("ygen", lst([I(1), I(2)]))], assign("k", N("g"))), call("k", I(5)), fr(["q"], [call("fromto", I(0), I(3))], N("q")), call("k", I(5))], {"yield-escape": "top"}))
+    ye.append(mk(ids, [ygen, assign("keep", fn(["a"], block([assign("r", lst([])), fr(["g"], [call("ygen", N("a"))], assign("r", bin_("+", N("r"), lst([N("g")])))), N("r")]))),
+                       assign("ks", call("keep", lst([I(3)]))), assign("ka", ix1(N("ks"), I(0))), call("ka")], {"yield-escape": "collected"}))
+    out.append(("closures yielded by a generator, called after the loop over it ended", ye, ("value",)))
     # a call made in a loop body must not change what the iterator closure sees in its captured variable
     upto = assign("upto", fn(["n"], fn([], block([assign("i", I(0)), wh(bin_("<", N("i"), N("n")), block([y(N("i")), assign("i", bin_("+", N("i"), I(1)))]))]))))
     adder = assign("adder", fn(["k"], fn(["x"], bin_("+", N("x"), N("k")))))
